@@ -43,7 +43,10 @@ rtg("C03", "reference-model comparison of every committed fact state and every o
 rtg("C04", "state snapshot before/inside/after an action on multi-head graphs",
     "On committed multi-head states the action's view must equal the fact cache, the collapse must emit no effect, and the advertised hello head must be the merge command the collapse wrote (located afterwards).")
 rtg("C05", "reference predicate (two incomparable finalize commands) vs observed ParallelFinalize, with unchanged-state check",
-    "DAGs with freely placed finalize commands: commit or merge fails with ParallelFinalize iff the reference finds an incomparable pair in the braided set; afterwards heads, graph and facts equal the pre-call state.")
+    "DAGs with freely placed finalize commands: commit or merge fails with ParallelFinalize iff the reference finds an incomparable pair in the braided set; afterwards heads, graph and facts equal the pre-call state. "
+    "A release-profile step adds merge commands one of whose parents is an ancestor of the other (sendable by a peer) with finalize commands behind and beside them; only the parallel-finalize oracle is "
+    "evaluated there (signatures prefixed `comparable-merge-parents:`; the spurious error the unchanged runtime raises on such merges is a known finding).",
+    extra_steps=one("native-rel", "mon-rt", "rt_graph", label="native-rel-comparable-merge-parents", set={"degenerate": "1"}))
 rtg("C06", "fault-position sweep of rejecting commands with continue-and-commit",
     "Write-then-fail and failing-require commands are injected after their parent, after perspective switches, after flushes and at batch ends; the transaction is continued and committed; "
     "the rejected id must be unlocatable, its writes absent, its sink transaction rolled back, children refused with NoSuchParent, earlier accepted commands committed.")
